@@ -25,7 +25,7 @@ def item_attr(it, prim, i, mode):
         p13 = "1..=3" if prim == "int" else '"s1" | "s3"'
         p50 = "50..=60" if prim == "int" else '"s50" | "s60"'
         return f"#[pattern({p50})] #[pattern({ty}| {p13})]" + (f" #[into({{{val(prim, 70 + i)}}})]" if mode == "map" else "")
-    pat = {"p13": "1..=3" if prim == "int" else '"s1" | "s3"', "p24": f"{val(prim, 2)} | {val(prim, 4)}", "ple1": "..=1", "pall": "_"}[it]
+    pat = {"p13": "1..=3" if prim == "int" else '"s1" | "s3"', "p24": f"{val(prim, 2)} | {val(prim, 4)}", "ple1": "..=1", "pall": "_", "pK": "K4"}[it]
     return f"#[pattern({pat})]" + (f" #[into({{{val(prim, 70 + i)}}})]" if mode == "map" else "")
 
 
@@ -52,7 +52,7 @@ def program(ci, c):
             run.append(f'{{ let p: {ty} = Ef::V{i}.try_into().unwrap(); println!("{{{{\\"case\\":{ci},\\"prop\\":\\"into\\",\\"f\\":true,\\"i\\":{i},\\"got\\":{{}}}}}}", {pv("p")}); }}')
             run.append(f'{{ let p: {ty} = Ef::V{i}.try_into().unwrap(); println!("{{{{\\"case\\":{ci},\\"prop\\":\\"rt\\",\\"f\\":true,\\"i\\":{i},\\"got\\":\\"{{}}\\"}}}}", match Ef::try_from(p) {{ Ok(e) => name_ef(e), Err(_) => "ERR" }}); }}')
     nl = "\n  "
-    return (f"pub mod c{ci} {{ use super::*;\npub type StaticStr = &'static str; pub const K2: i32 = 2;\n{E}\n{Ef}\n{show('E')}\n{show('Ef')}\n"
+    return (f"pub mod c{ci} {{ use super::*;\npub type StaticStr = &'static str; pub const K2: i32 = 2; pub const K4: i32 = 4;\n{E}\n{Ef}\n{show('E')}\n{show('Ef')}\n"
             f"pub fn run() {{\n  {nl.join(run)}\n}} }}")
 
 
